@@ -76,6 +76,11 @@ structure St where
   results : List Nat := []
   cancelled : Bool := false
   closed : Bool := false
+  /-- `started`: Start() has succeeded -/
+  started : Bool := false
+  /-- PendingCount() calls between their two reads: for each, `sequenceCounter - processed`
+      as it was when the processed count was read -/
+  reads : List Nat := []
 deriving DecidableEq, Repr
 
 inductive Ev where
@@ -84,8 +89,9 @@ inductive Ev where
   | vt (x : Item) | vp (x : Item) | vd (x : Item)
   | at_ (x : Item) | ax (x : Item) | ab (x : Item) | aq (x : Item)
   | ap (x : Item) | ad (x : Item) | rs (x : Item) | rd (x : Item)
-  | cancel | close
+  | start | cancel | close
   | pc (n : Nat) | pcq (n : Nat)
+  | pa (v : Nat) | pb (n : Nat)
 deriving DecidableEq, Repr
 
 /-- Number of sequence numbers the apply stage is done with
@@ -120,12 +126,13 @@ def fwdStep (s : St) (z : Item) (sent : Bool) : Option St :=
 def step (c : Cfg) (s : St) : Ev → Option St
   -- Submit: the item is accepted by submitChan and keeps the sequence number
   | .sub x =>
-    if s.closed = false ∧ x.seq = s.counter then
+    if s.started = true ∧ s.closed = false ∧ x.seq = s.counter then
       some { s with subCh := x :: s.subCh, counter := s.counter + 1, subs := s.subs ++ [x] }
     else none
-  -- Submit returned an error (context expired, pipeline stopping)
+  -- Submit returned an error (not started, context expired, pipeline stopping). The
+  -- started check precedes the allocation, also in the code before the repair.
   | .fail =>
-    if c.legacy then
+    if c.legacy = true ∧ s.started = true then
       some { s with counter := s.counter + 1, subs := s.subs ++ [⟨s.counter, false, false⟩] }
     else some s
   -- decode workers (StageWorkerPool.worker)
@@ -173,12 +180,21 @@ def step (c : Cfg) (s : St) : Ev → Option St
     | _ => none
   | .rs z => fwdStep s z true
   | .rd z => if s.cancelled = true then fwdStep s z false else none
-  -- Stop
-  | .cancel => some { s with cancelled := true }
+  -- Start / Stop
+  | .start => if s.started = false ∧ s.closed = false then some { s with started := true } else none
+  | .cancel => if s.started = true then some { s with cancelled := true } else none
   | .close => if s.cancelled = true then some { s with closed := true } else none
-  -- PendingCount reads
+  -- PendingCount: results reported by the caller (`pc`: any moment, `pcq`: pipeline at rest)
   | .pc _ => some s
   | .pcq n => if n = pendingCount s then some s else none
+  -- PendingCount, first read: `processedCount()` under the apply stage's mutex
+  | .pa v => if v = processed s then some { s with reads := (s.counter - v) :: s.reads } else none
+  -- PendingCount, second read: `sequenceCounter.Load()`. The counter may have grown since the
+  -- first read (and includes a Submit that is blocked): the result can only be larger.
+  | .pb n =>
+    match s.reads.find? (fun p => decide (p ≤ n)) with
+    | some p => some { s with reads := s.reads.erase p }
+    | none => none
 
 def run (c : Cfg) (s : St) : List Ev → Option St
   | [] => some s
